@@ -181,7 +181,8 @@ static void do_rt(int argc, char** a, int with_recon)
 	int input_modified = memcmp(copy, data, n * es) != 0;
 	if (bytes == NULL) { printf("st=null out=%zx n=%zx\n", outSize, n); free(data); free(copy); return; }
 	int lc = outSize >= 4 ? is_lossless_compressed_data(bytes, outSize) : -1;   /* -1 unwrapped, 0 zlib, 1 zstd */
-	printf("out=%zx lc=%d ", outSize, lc); fflush(R);   /* survives a crash of the decompressor (partial line) */
+	{ uint64_t h = 1469598103934665603ULL; for (size_t i = 0; i < outSize; i++) { h ^= bytes[i]; h *= 1099511628211ULL; } printf("out=%zx lc=%d sdig=%" PRIx64 " ", outSize, lc, h); }
+	fflush(R);   /* survives a crash of the decompressor (partial line) */
 	size_t dn = computeDataLength(dr[0], dr[1], dr[2], dr[3], dr[4]);
 	void* dec = SZ_decompress(ty, bytes, outSize, dr[0], dr[1], dr[2], dr[3], dr[4]);
 	if (dec == NULL) { printf("st=dec-null n=%zx\n", n); free(bytes); free(data); free(copy); return; }
@@ -472,7 +473,40 @@ static void op_conf(int argc, char** a)
 	SZ_Finalize(); SZ_Init(NULL);
 }
 
+
+/* ---------- C06 / C04 ---------- */
+/* meta <type> <dims> <mode> <abs bits> <rel bits> <cfg> <data>: compress, undo the lossless wrapper, SZ_getMetadata;
+ * prints the header bytes (for the model), the reported fields, and the error of the reconstruction */
+static void op_meta(int argc, char** a)
+{
+	int ty = (int)hx(a[0]); size_t r[5]; parse_dims(a[1], r);
+	int mode = (int)hx(a[2]); double absb = dbl_of_bits(a[3]), rel = dbl_of_bits(a[4]);
+	if (init_from_cfg(a[5]) != SZ_SCES) { printf("st=init-failed\n"); return; }
+	size_t n; void* data = make_data(a[6], ty, &n); int es = elem_size(ty);
+	void* copy = malloc(n * es + 8); memcpy(copy, data, n * es);
+	int cfg_szmode = confparams_cpr->szMode;
+	size_t cs = 0; unsigned char* cb = SZ_compress_args(ty, data, &cs, mode, absb, rel, 0, r[0], r[1], r[2], r[3], r[4]);
+	if (!cb) { printf("st=null\n"); return; }
+	int lc = cs >= 4 ? is_lossless_compressed_data(cb, cs) : -1;
+	printf("out=%zx lc=%d ", cs, lc); fflush(R);
+	unsigned char* raw = cb; size_t rs = cs;
+	if (lc != -1) { rs = sz_lossless_decompress(lc, cb, cs, &raw, n * es + 4096); if (lc == ZSTD_COMPRESSOR) rs = n * es + 4096; }
+	sz_metadata* m = SZ_getMetadata(raw);
+	size_t hl = rs < 4 + 36 + 1 + 8 ? rs : 4 + 36 + 1 + 8;
+	print_bytes("hdr", raw, hl);
+	printf(" const=%d lossless=%d st=%d len=%zx ty=%x mode=%x b6=%x b10=%x szmode=%x cfgszmode=%x", m->isConstant, m->isLossless, m->sizeType, m->dataSeriesLength,
+	       m->conf_params->dataType, m->conf_params->errorBoundMode, fbits((float)m->conf_params->absErrBound), fbits((float)m->conf_params->relBoundRatio), m->conf_params->szMode, cfg_szmode);
+	double rep_abs = m->conf_params->absErrBound; int rep_mode = m->conf_params->errorBoundMode;
+	free(m);
+	void* dec = SZ_decompress(ty, cb, cs, r[0], r[1], r[2], r[3], r[4]);
+	if (!dec) { printf(" dec=null\n"); return; }
+	double mn, mx; double e = effective_bound(ty, copy, n, mode, absb, rel, &mn, &mx);
+	struct errstat s1; err_stats(ty, copy, dec, n, e, mn, mx, &s1);
+	printf(" n=%zx maxerr=%" PRIx64 " e=%" PRIx64 " repabs=%" PRIx64 " repmode=%x range=%" PRIx64 " amax=%" PRIx64 "\n", n, bits_of_dbl(s1.maxerr), bits_of_dbl(e), bits_of_dbl(rep_abs), rep_mode, bits_of_dbl(mx - mn), bits_of_dbl(s1.amax));
+	if (raw != cb) free(raw); free(cb); free(dec); free(data); free(copy);
+}
+
 struct op more_ops[] = {
-	{"rt", op_rt}, {"rtr", op_rtr}, {"fdim", op_fdim}, {"huff", op_huff}, {"rw", op_rw}, {"tr", op_tr}, {"lz", op_lz}, {"conf", op_conf}, {"sniff", op_sniff}, {"ep", op_ep},
+	{"rt", op_rt}, {"rtr", op_rtr}, {"fdim", op_fdim}, {"huff", op_huff}, {"rw", op_rw}, {"tr", op_tr}, {"lz", op_lz}, {"conf", op_conf}, {"meta", op_meta}, {"sniff", op_sniff}, {"ep", op_ep},
 	{NULL, NULL}
 };
